@@ -245,6 +245,65 @@ fn oracle(c: &Case, st: &mut Stats) -> Result<(), String> {
       tamper(name, t, st)?;
     }
   }
+  // proof scalars as BYTES: an encoding that is not the canonical one of the honest scalar
+  // (c + j*l, s + j*l, high bits set) must be refused by the decoders or fail verification -
+  // the decoders are really exercised here, through both restore routes
+  if must_verify {
+    let l = num_bigint::BigUint::parse_bytes(b"7237005577332262213973186563042994240857116359379907606001950938285454250989", 10).unwrap();
+    let honest_bytes = {
+      let mut v = base.c.to_bytes().to_vec();
+      v.extend_from_slice(&base.s.to_bytes());
+      v
+    };
+    let pk_restored = ServerPublicKey::load_from_bincode(&base.pk).map_err(|e| e.to_string())?;
+    for (which, j) in [(0usize, 1u32), (0, 7), (1, 1), (1, 15), (0, 15)] {
+      let v = num_bigint::BigUint::from_bytes_le(&honest_bytes[32 * which..32 * which + 32]) + &l * j;
+      let vb = v.to_bytes_le();
+      if vb.len() > 32 {
+        continue;
+      }
+      let mut raw = honest_bytes.clone();
+      for k in 0..32 {
+        raw[32 * which + k] = *vb.get(k).unwrap_or(&0);
+      }
+      st.evals(1);
+      let name = format!("proof scalar {} replaced by a non-canonical encoding (+{}*l)", if which == 0 { "c" } else { "s" }, j);
+      // route 1: binary form of the proof
+      match no_panic(|| ppoprf::ppoprf::ProofDLEQ::load_from_bincode(&raw)).map_err(|p| format!("proof decoder panicked: {p}"))? {
+        Err(_) => {
+          st.class("tamper=rejected-at-decode");
+        }
+        Ok(pr) => {
+          let ev2 = Evaluation { output: point_from(&base.output), proof: Some(pr) };
+          if Client::verify(&pk_restored, &point_from(&base.input), &ev2, base.md) {
+            return Err(format!("tampered evaluation ACCEPTED ({name}, binary route): proof bytes {}", hex::encode(&raw)));
+          }
+          st.class("tamper=rejected-by-proof");
+        }
+      }
+      // route 2: JSON form of the evaluation (scalars as arrays of 32 numbers)
+      let hon_json = serde_json::to_value(ev).map_err(|e| e.to_string())?;
+      let mut tj = hon_json.clone();
+      let key = if which == 0 { "c" } else { "s" };
+      if let Some(arr) = tj.get_mut("proof").and_then(|p| p.get_mut(key)).and_then(|a| a.as_array_mut()) {
+        if arr.len() == 32 {
+          for k in 0..32 {
+            arr[k] = serde_json::json!(raw[32 * which + k]);
+          }
+          match serde_json::from_str::<Evaluation>(&tj.to_string()) {
+            Err(_) => {
+              st.class("tamper=rejected-at-decode");
+            }
+            Ok(ev3) => {
+              if Client::verify(&pk_restored, &point_from(&base.input), &ev3, base.md) {
+                return Err(format!("tampered evaluation ACCEPTED ({name}, JSON route): {}", tj));
+              }
+            }
+          }
+        }
+      }
+    }
+  }
   // public key: base point, the verified tag's entry, another server's whole key
   let (model, _) = PkModel::decode(&pkb)?;
   let entry_idx = model.entries.iter().position(|(t, _)| *t == m).ok_or("tag entry missing in public key")?;
